@@ -22,6 +22,8 @@ import threading
 import time
 import zlib
 
+import numpy as np
+
 from . import core
 from . import nixmodel as nm
 
@@ -284,6 +286,120 @@ def probe_reopen(sess, tx, exp_to, conc, res, okind):
             return
 
 
+def probe_attrs(sess, tx, exp_to, conc, res, okind):
+    """
+    C02 for the descriptive attributes the entity-graph model does not carry: on the reached state a seeded choice of
+    them is set (non-ASCII and empty text, None after a value, numeric lists of several lengths, every kind of
+    dimension descriptor), then the file is closed and reopened read-only and read-write: project_extras before
+    closing = after reopening.
+    """
+    state = tx["from"] if tx["to"].get("same") else tx["to"]
+    rnd = sess.rnd
+    pick = rnd.choice
+    try:
+        for o in state["objs"]:
+            k = o["kind"]
+            if k not in ("array", "tag", "mtag", "section", "property", "frame") or rnd.random() < 0.3:
+                continue
+            h = sess.obj(o["id"], fresh=True)
+            if k == "array":
+                if rnd.random() < 0.7:
+                    h.label = pick(["a label", "µV-Etikett 名", "x" * 300])
+                    if rnd.random() < 0.3:
+                        h.label = None
+                if rnd.random() < 0.7:
+                    h.unit = pick(["mV", "ms", "kHz"])
+                    if rnd.random() < 0.3:
+                        h.unit = None
+                if rnd.random() < 0.6:
+                    h.polynom_coefficients = pick([[1.0, 2.0], [0.0], [-1.5, 0.25, 3.0], [0.0, 0.0, 0.0, 0.0, 1.0]])
+                    if rnd.random() < 0.3:
+                        h.polynom_coefficients = None
+                if rnd.random() < 0.6:
+                    h.expansion_origin = pick([0.5, 0.0, -2.0, 1e300])
+                    if rnd.random() < 0.3:
+                        h.expansion_origin = None
+                for _ in range(rnd.randrange(3)):
+                    how = rnd.randrange(3)
+                    if how == 0:
+                        d = h.append_sampled_dimension(pick([0.25, 1.0, 1e-9]), label=pick([None, "Zeit"]), unit=pick([None, "ms"]),
+                                                       offset=pick([None, -1.5, 0.0, 7.0]))
+                        if rnd.random() < 0.3:
+                            d.offset = pick([0.0, 2.5])
+                    elif how == 1:
+                        d = h.append_range_dimension(ticks=pick([[1.0], [0.5, 0.75, 9.0], [-3.0, 0.0]]), label=pick([None, "x"]),
+                                                     unit=pick([None, "s"]))
+                        if rnd.random() < 0.3:
+                            d.ticks = [2.0, 4.0]
+                    else:
+                        d = h.append_set_dimension(labels=pick([None, ["a", "b"], ["ü", ""]]))
+                        if rnd.random() < 0.3:
+                            d.labels = ["only"]
+            elif k == "tag":
+                h.position = pick([[1.0], [1.5, -2.0], [0.0, 0.0, 3.25]])
+                if rnd.random() < 0.7:
+                    h.extent = pick([[1.0], [0.5, 2.0], [0.0, 0.0, 0.0]])
+                    if rnd.random() < 0.3:
+                        h.extent = None
+                if rnd.random() < 0.7:
+                    h.units = pick([["ms"], ["mV", "s"], ["s", "s", "s"]])
+                    if rnd.random() < 0.3:
+                        h.units = None
+            elif k == "mtag":
+                if rnd.random() < 0.7:
+                    h.units = pick([["ms"], ["mV", "s"]])
+                    if rnd.random() < 0.3:
+                        h.units = None
+            elif k == "section":
+                if rnd.random() < 0.7:
+                    h.reference = pick(["ref", "réf 名"])
+                    if rnd.random() < 0.3:
+                        h.reference = None
+                if rnd.random() < 0.7:
+                    h.repository = pick(["http://repo/x", "ü"])
+                    if rnd.random() < 0.3:
+                        h.repository = None
+            elif k == "property":
+                if rnd.random() < 0.7:
+                    h.unit = pick(["mV", "s"])
+                    if rnd.random() < 0.3:
+                        h.unit = None
+                if rnd.random() < 0.7:
+                    h.uncertainty = pick([0.5, 0.0, 1e-12])
+                    if rnd.random() < 0.3:
+                        h.uncertainty = None
+                if rnd.random() < 0.5:
+                    h.reference = pick(["r", "ü"])
+                if rnd.random() < 0.5:
+                    h.value_origin = pick(["somewhere", "名"])
+                if rnd.random() < 0.5:
+                    h.dependency = "dep"
+                    h.dependency_value = pick(["v", "ü"])
+            elif k == "frame":
+                if rnd.random() < 0.7:
+                    h.units = pick([["mV", "s"], [None, "ms"]])
+    except Exception as exc:  # noqa
+        res["findings"].append(finding("reopen-extras", tx, okind, {"what": "setter_raises", "raised": repr(exc)[:200]}, conc=conc))
+        return
+    res["attr_probes"] = res.get("attr_probes", 0) + 1
+    before = nm.project_extras(sess.nf)
+    nixio = sess.nixio
+    for mode, label in ((nixio.FileMode.ReadOnly, "ro"), (nixio.FileMode.ReadWrite, "rw")):
+        try:
+            nf = sess.reopen(mode)
+        except Exception as exc:  # noqa
+            res["findings"].append(finding("reopen-extras", tx, okind, {"what": "reopen_raises", "mode": label,
+                                                                         "raised": repr(exc)[:200]}, conc=conc))
+            return
+        d = nm.diff(before, nm.project_extras(nf))
+        if d:
+            path_, e, g = d[0]
+            res["findings"].append(finding("reopen-extras", tx, okind,
+                                           {"what": "differs", "mode": label, "path": path_, "expected": e, "observed": g,
+                                            "gpath": generic(path_)}, conc=conc))
+            return
+
+
 def _walk_containers(sess, state):
     """(label, container, expected member object records in creation order, is_link_list)"""
     objs = {o["id"]: o for o in state["objs"]}
@@ -443,6 +559,20 @@ def probe_dead_ids(sess, tx, exp_to, conc, res, okind):
                 parents.append(("kept_from_creation", sess.handles[owner]))
             if owner in sess.handles_b:
                 parents.append(("second_long_lived", sess.handles_b[owner]))
+        # a handle of the deleted entity that a client still holds is not a member either (asked only while no live
+        # sibling has taken over the name: the handle then denotes that entity)
+        dead_h = getattr(sess, "dead_handles", {}).get(num)
+        name_reused = any(o["owner"] == owner and o["kind"] == kind and o["name"] == sess.meta[num][2] for o in state["objs"])
+        if dead_h is not None and kind not in ("feature",) and not name_reused:
+            try:
+                cont = getattr(parents[0][1], attr[kind])
+                if dead_h in cont:
+                    res["findings"].append(finding("lookup", tx, okind,
+                                                   {"container": "%s.%s" % ("file" if owner == 0 else sess.meta[owner][0], attr[kind]),
+                                                    "what": "handle_of_deleted_entity_is_member"}, conc=conc))
+                    return
+            except Exception:  # noqa
+                pass
         for label, parent in parents:
             try:
                 cont = getattr(parent, attr[kind])
@@ -867,9 +997,45 @@ def probe_xcopy(sess, tx, exp_to, conc, res, okind):
                 f2.close()
             except Exception:  # noqa
                 pass
+    # LAST (the copy stays in the file: deleting an id-keeping copy would delete the source as well):
+    # same file, a tag / multi-tag with references copied ON ITS OWN (the library gives the copy private duplicates of
+    # the referenced arrays): what the copy's reference shows is the array as it was copied; a later write through the
+    # source's array must not show in the copy, a write through the copy's reference must not reach the source
+    withrefs = [o for o in state["objs"] if o["kind"] == "tag" and o["ls"]["references"]]
+    rnd.shuffle(withrefs)
+    for o in withrefs[:1]:
+        newname = "refcopy of " + conc.name(o["name"])[:40]
+        blk = None
+        try:
+            src = sess.obj(o["id"])
+            blk = sess.obj(o["owner"])
+            keep = rnd.random() < 0.6
+            arr = src.references[0]
+            before = nm._listify(arr[:])
+            cp = blk.create_tag(name=newname, copy_from=src, keep_copy_id=keep)
+            res["refcopies"] = res.get("refcopies", 0) + 1
+            label = "samefile/tag_with_references/%s" % ("keep_id" if keep else "fresh_id")
+            if len(cp.references) != len(src.references) or nm._listify(cp.references[0][:]) != before:
+                bad(label + "/copy_differs", {"expected": before, "observed": nm._listify(cp.references[0][:])})
+            else:
+                marker = [float(len(before) + 1000.5 + i) for i in range(len(before))]
+                arr[:] = np.array(marker).reshape(np.shape(arr[:]))
+                seen = nm._listify(cp.references[0][:])
+                arr[:] = np.array(before).reshape(np.shape(arr[:]))
+                if seen != before:
+                    bad(label + "/change_of_source_array_visible_in_copy", {"expected": before, "observed": seen})
+                else:
+                    cref = cp.references[0]
+                    cref[:] = np.array(marker).reshape(np.shape(cref[:]))
+                    if nm._listify(arr[:]) != before:
+                        bad(label + "/write_through_copy_reached_source", {})
+                    elif nm._listify(cp.references[0][:]) != marker:
+                        bad(label + "/write_through_copy_lost", {"observed": nm._listify(cp.references[0][:])})
+        except Exception as exc:  # noqa
+            bad("samefile/tag_with_references/raises", {"raised": repr(exc)[:300]})
 
 
-PROBES = {"stamps": probe_stamps, "dead_ids": probe_dead_ids, "xcopy": probe_xcopy, "searches": probe_searches, "reopen": probe_reopen, "lookups": probe_lookups, "free_name": probe_free_name}
+PROBES = {"attrs": probe_attrs, "stamps": probe_stamps, "dead_ids": probe_dead_ids, "xcopy": probe_xcopy, "searches": probe_searches, "reopen": probe_reopen, "lookups": probe_lookups, "free_name": probe_free_name}
 
 
 def _run_batch(batch):
@@ -1095,6 +1261,8 @@ def key_of(f):
         return "xcopy/%s" % d["what"]
     if f["stage"] == "noise":
         return "noise/%s/%s" % (d["what"], d.get("call", "-"))
+    if f["stage"] == "reopen-extras":
+        return "reopen-extras/%s/%s" % (d["what"], re.sub(r"\[\d+\]", "[]", d.get("path", d.get("raised", "-")))[:80])
     if f["stage"] == "copy_returned":
         return "Copy/%s/returned_handle_is_not_the_copy/%s" % (f["okind"], "keep_id" if d.get("keep_id") else "fresh_id")
     if f["stage"] == "lookup":
